@@ -33,6 +33,18 @@ Theorem va_arg_sequence_eq_sysv : forall named tail, wf_args (named ++ tail) = t
 Proof. intros named tail W; split; [exact (gen_va_tail_eq named tail W)|exact (interp_va_tail_eq named tail W)]. Qed.
 Print Assumptions va_arg_sequence_eq_sysv.
 
+(* end to end: whatever words a psABI-conforming caller places for (named ++ tail), a MIR function
+   (generated, or interpreted behind the shim) that takes its fixed parameters and then its
+   variadic tail reads back exactly those words, argument by argument *)
+Theorem mir_callee_receives_every_argument : forall named tail vals, wf_args (named ++ tail) = true ->
+  same_shape (fst (assign (named ++ tail))) vals ->
+  read_args (fst (in_assign named) ++ fst (va_read_seq true true (gen_va_start named) tail))
+            (image (fst (assign (named ++ tail))) vals) = map (map Some) vals
+  /\ read_args (fst (interp_decode true named) ++ fst (va_read_seq true true (snd (interp_decode true named)) tail))
+               (image (fst (assign (named ++ tail))) vals) = map (map Some) vals.
+Proof. exact callee_roundtrip. Qed.
+Print Assumptions mir_callee_receives_every_argument.
+
 (* the va_list built by va_start is in the canonical psABI range (a C callee such as vprintf can
    continue from it) *)
 Theorem va_list_canonical : forall named, wf_args named = true ->
